@@ -686,7 +686,7 @@ pub proof fn lemma_deposit_keeps_ok(pools0: Map<PoolKey, PoolState>, reqs: Seq<T
 }
 pub open spec fn mentioned_set(reqs: Seq<Transaction>) -> ISet<PoolKey> { ISet::new(|k: PoolKey| mentions(reqs, k)) }
 /// the envelopes of the pool-settlement phases (declared uninterpreted in lemmas/sealenv_opaque.rs for the sealing unit)
-pub open spec fn seal_env<C: ContentAddrStore>(s: UnsealedState<C>) -> bool { deposit_weights_fit(s.transactions@) && wd_env(s.transactions@, s.pools@, s.coins@.coins, spec_tip(s.network, s.height, 180000)) }
+pub open spec fn seal_env<C: ContentAddrStore>(s: UnsealedState<C>) -> bool { microergs_fit(s.height.0 as nat) && deposit_weights_fit(s.transactions@) && wd_env(s.transactions@, s.pools@, s.coins@.coins, spec_tip(s.network, s.height, 180000)) }
 
 // ---- the withdrawal phase (process_withdrawals)
 pub open spec fn withdraw_pred<C: ContentAddrStore>(s: UnsealedState<C>) -> spec_fn(Transaction) -> bool { |tx: Transaction| is_withdraw_req(s, tx) }
